@@ -150,17 +150,20 @@ func NewRootConfig(
 		koanf:  k,
 	}
 
-	configFileFromEnv := os.Getenv("MOCKERY_CONFIG")
-	if configFileFromEnv != "" {
-		configFile = pathlib.NewPath(configFileFromEnv)
-	}
-	if configFile == nil {
+	// Command line parameters take precedence over environment variables.
+	if flags != nil && flags.Lookup("config") != nil {
 		configFileFromFlags, err := flags.GetString("config")
 		if err != nil {
 			return nil, nil, fmt.Errorf("getting --config from flags: %w", err)
 		}
 		if configFileFromFlags != "" {
 			configFile = pathlib.NewPath(configFileFromFlags)
+		}
+	}
+	if configFile == nil {
+		configFileFromEnv := os.Getenv("MOCKERY_CONFIG")
+		if configFileFromEnv != "" {
+			configFile = pathlib.NewPath(configFileFromEnv)
 		}
 	}
 	if configFile == nil {
